@@ -19,10 +19,8 @@ def tlc(module, cfgtext, wname, **kw):
 
 
 def features():
-    quick = vlib.tier() != "thorough"
-    if os.environ.get("VERIF_RAFT_PERSISTENT", "0" if quick else "1") == "1":
-        return "persistent"
-    return None
+    # one build of vhraft for the whole family: always with RocksStore (RocksDB is built from source once, ~8 min cold)
+    return "persistent"
 
 
 def run_c35(prop):
@@ -30,7 +28,7 @@ def run_c35(prop):
     v = Verdict(prop, "model_checking")
     v.rule = ("case = command log of 8 (thorough 12) commands over all 16 command kinds with a batch cut and a snapshot index, or a history of 5 (thorough 6) "
               "storage calls (append / conflict deletion / purge / vote / term change); non-trivial = non-empty final state resp. a history with purge or conflict deletion; distinct by hash")
-    v.assumptions = ["stores: MemStore always; RocksStore in the thorough tier or with VERIF_RAFT_PERSISTENT=1 (RocksDB builds from source in ~8 min)",
+    v.assumptions = ["stores: MemStore and RocksStore (vhraft is built with the persistent feature; RocksDB builds from source in ~8 min cold)",
                      "openraft::testing::Suite is run as the library's own statement of its storage contract"]
     w = workdir("raft35")
     feat = features()
@@ -57,7 +55,7 @@ def run_c35(prop):
         raise vlib.ToolError("RaftSM GEN covered only %d of 16 command kinds" % len(kinds))
     cp, rp = os.path.join(w, "sm_cases.ndjson"), os.path.join(w, "sm_report.json")
     write_ndjson(cp, cases)
-    run_harness("vhraft", ["sm-replay", cp, rp], features=feat, timeout=3000)
+    run_harness("vhraft", ["sm-replay", cp, rp], features=feat, timeout=3000, env_extra={"VERIF_ROCKS_STRIDE": "10" if quick else "1"})
     v.add_report(load_report(rp))
     # --- GEN: storage contract, exhaustive histories
     mo = 5 if quick else 6
@@ -68,7 +66,7 @@ def run_c35(prop):
     v.add_tlc(r, "RaftLog: contract holds on the reference; %d histories" % len(lc))
     cp, rp = os.path.join(w, "log_cases.ndjson"), os.path.join(w, "log_report.json")
     write_ndjson(cp, lc)
-    run_harness("vhraft", ["log-replay", cp, rp, 4], features=feat, timeout=3000)
+    run_harness("vhraft", ["log-replay", cp, rp, 4], features=feat, timeout=3000, env_extra={"VERIF_ROCKS_STRIDE": "10" if quick else "1"})
     v.add_report(load_report(rp))
     # --- the library's own suite
     rp = os.path.join(w, "suite_report.json")
